@@ -50,17 +50,24 @@ def _enum_case(i):
 
 
 def _cfg(rng, det):
+    inverted = rng.random() < 0.15   # legal but unusual: the warning threshold is stricter than the drift threshold
     if det == "ddm":
         ws = rng.choice([1.0, 1.5, 2.0, 2.5])
-        return {"det": det, "n_threshold": rng.randint(1, 30), "warning_scale": ws,
-                "drift_scale": ws + rng.choice([0, 0.5, 1.0, 2.0])}
+        ds = ws + rng.choice([0, 0.5, 1.0, 2.0])
+        if inverted:
+            ws, ds = ds + 0.5, ws
+        return {"det": det, "n_threshold": rng.randint(1, 30), "warning_scale": ws, "drift_scale": ds}
     if det == "eddm":
         wt = rng.choice([0.99, 0.95, 0.9])
-        return {"det": det, "n_threshold": rng.randint(1, 15), "warning_thresh": wt,
-                "drift_thresh": round(wt - rng.choice([0, 0.05, 0.1, 0.3]), 4)}
-    aw = rng.choice([0.3, 0.2, 0.1, 0.05])
-    return {"det": det, "window_size": rng.randint(1, 20), "alpha_warning": aw,
-            "alpha_drift": round(aw * rng.choice([1, 0.5, 0.06]), 6)}
+        dt = round(wt - rng.choice([0, 0.05, 0.1, 0.3]), 4)
+        if inverted:
+            wt, dt = rng.choice([0.0, 0.5, dt - 0.1]), wt
+        return {"det": det, "n_threshold": rng.randint(1, 15), "warning_thresh": round(wt, 4), "drift_thresh": dt}
+    aw = rng.choice([0.8, 0.6, 0.3, 0.2, 0.1, 0.05])
+    ad = round(aw * rng.choice([1, 0.5, 0.06]), 6)
+    if inverted:
+        aw, ad = ad, aw
+    return {"det": det, "window_size": rng.randint(1, 20), "alpha_warning": aw, "alpha_drift": ad}
 
 
 def gen(rng, scenario, tier):
